@@ -1,15 +1,97 @@
 import XmlRsModel.Dom
 import XmlRsModel.Thm.C13
+import XmlRsModel.Lemmas.DomStep
+import XmlRsModel.Lemmas.DomInit
+import XmlRsModel.Lemmas.DomNav
 /-! Property C12: the DOM stays a tree — navigation views agree after any edit history.
-    The model keeps ONE representation of the structure (an inductive tree per root: child lists and
-    attribute lists), so "every node listed among a parent's children reports that parent", "siblings
-    match the child list" hold by construction of the navigation functions; what has to be PROVED is
-    that the operations keep the ids of all trees pairwise distinct (no node occurs twice or beneath
-    itself) and that a node cannot be inserted beneath itself.  The real code keeps the redundancy
+
+    The model keeps a forest (the document tree and the detached trees); `parent`, `find`, child lists
+    are read off that forest.  What has to be PROVED is the invariant that makes those readings
+    agree: after ANY sequence of operations, successful or refused, starting from ANY parsed
+    document, every node id occurs exactly once in the forest (`Inv`).  From it: the node whose child
+    list holds `c` is the parent reported for `c` and conversely, a root has no parent, no node lies
+    beneath itself, moving never loses or duplicates a node.  The real code keeps the redundancy
     (child vectors, parent ids, an id map); the check evaluates the navigation views of the real
     nodes after every step (monitor) and compares the tree with the model's (tie). -/
 namespace XmlRs.C12
-open XmlRs XmlRs.Dom
+open XmlRs XmlRs.Dom List
+
+/-- a history: the operations are applied one after the other, whatever each one answers -/
+def run (s : St) (ops : List Op) : St := ops.foldl (fun s op => (step s op).1) s
+
+/-- ONE STEP: whatever the operation, whatever it answers -/
+theorem inv_step (s : St) (op : Op) (h : Inv s) : Inv (step s op).1 := h.of_grow (step_grow s op h)
+
+/-- EVERY REACHABLE STATE: induction over the history -/
+theorem inv_run (s : St) (ops : List Op) (h : Inv s) : Inv (run s ops) := by
+  induction ops generalizing s with
+  | nil => exact h
+  | cons op r ih => exact ih _ (inv_step s op h)
+
+/-- for every parsed document and every history of DOM operations: no node occurs twice — neither
+    in one tree, nor in two trees, nor as child and attribute — and every id in use was allocated -/
+theorem no_node_twice (d : IDoc) (ops : List Op) :
+    (idsOfL (run (buildSt d) ops).roots).Nodup ∧
+    ∀ i ∈ idsOfL (run (buildSt d) ops).roots, i < (run (buildSt d) ops).next := by
+  have h := inv_run (buildSt d) ops (buildSt_inv d)
+  refine ⟨nodup_iff_count.mpr h.1, fun i hi => h.2 i ?_⟩
+  exact (mem_idsL_iff i _).mp hi
+
+/-- CHILD LIST ⇒ PARENT: the node in whose child list `c` stands is what `parent` reports for `c` -/
+theorem child_reports_parent (s : St) (h : Inv s) (p c : Nat) (pn : Node) (hf : s.find p = some pn)
+    (hk : pn.kids.any (·.id == c) = true) : s.parent c = some p :=
+  parentInL_of_kid p c s.roots pn h.1 hf hk
+
+/-- PARENT ⇒ CHILD LIST: what `parent` reports for `c` is a live node whose child list holds `c` -/
+theorem parent_lists_child (s : St) (h : Inv s) (p c : Nat) (hp : s.parent c = some p) :
+    ∃ pn, s.find p = some pn ∧ pn.kids.any (·.id == c) = true :=
+  kid_of_parentInL p c s.roots h.1 hp
+
+/-- the two views agree in every reachable state -/
+theorem views_agree_after_any_history (d : IDoc) (ops : List Op) (p c : Nat) :
+    (run (buildSt d) ops).parent c = some p ↔
+    ∃ pn, (run (buildSt d) ops).find p = some pn ∧ pn.kids.any (·.id == c) = true := by
+  have h := inv_run (buildSt d) ops (buildSt_inv d)
+  exact ⟨parent_lists_child _ h p c, fun ⟨pn, hf, hk⟩ => child_reports_parent _ h p c pn hf hk⟩
+
+/-- a removed node (a root of a detached tree) and the document node have no parent -/
+theorem root_has_no_parent (s : St) (h : Inv s) (r : Node) (hr : r ∈ s.roots) : s.parent r.id = none :=
+  root_no_parent s.roots h.1 r hr
+
+/-- what `removeChild` hands back is afterwards a detached root, hence without parent -/
+theorem removed_node_has_no_parent (s : St) (h : Inv s) (p c : Nat) (hok : (removeChild s p c).2 = .node c) :
+    (removeChild s p c).1.parent c = none := by
+  have hi' : Inv (removeChild s p c).1 := h.of_sameIds (removeChild_sameIds s p c h)
+  rcases removeChild_shape s p c with ⟨e, hs⟩ | ⟨s1, x, hd, heq⟩
+  · rw [hs] at hok; cases hok
+  · obtain ⟨_, _, hsome, _⟩ := detach_count s s1 c (some x) h.1 hd
+    have hid := (hsome x rfl).1
+    have hx : x ∈ (removeChild s p c).1.roots := by rw [heq]; simp [St.roots]
+    have := root_has_no_parent _ hi' x hx
+    rw [hid] at this; exact this
+
+/-- no node lies beneath itself -/
+theorem no_node_beneath_itself (s : St) (h : Inv s) (p : Nat) (pn : Node) (hf : s.find p = some pn) :
+    p ∉ idsOfL pn.attrs ∧ p ∉ idsOfL pn.kids := by
+  have := not_below_itself s.roots h.1 p pn hf
+  unfold below at this
+  constructor
+  · intro hm; have := (mem_idsL_iff p _).mp hm; omega
+  · intro hm; have := (mem_idsL_iff p _).mp hm; omega
+
+/-- MOVES: a successful or refused `insertBefore` / `appendChild` / `removeChild` / `replaceChild`
+    leaves exactly the nodes that were there — none lost, none duplicated, none invented -/
+theorem insert_preserves_nodes (s : St) (h : Inv s) (p c : Nat) (ref : Option Nat) :
+    (idsOfL (insertChild s p c ref).1.roots).Perm (idsOfL s.roots) :=
+  perm_iff_count.mpr (insertChild_sameIds s p c ref h).2
+
+theorem remove_preserves_nodes (s : St) (h : Inv s) (p c : Nat) :
+    (idsOfL (removeChild s p c).1.roots).Perm (idsOfL s.roots) :=
+  perm_iff_count.mpr (removeChild_sameIds s p c h).2
+
+theorem replace_preserves_nodes (s : St) (h : Inv s) (p new old : Nat) :
+    (idsOfL (step s (.replaceChild p new old)).1.roots).Perm (idsOfL s.roots) :=
+  perm_iff_count.mpr (replaceChild_sameIds s p new old h).2
 
 /-- a node cannot be made a child of itself or of one of its descendants: the call is refused -/
 theorem insert_cycle_refused (s s' : St) (p c : Nat) (ref : Option Nat) (r : Dom.Res)
